@@ -489,6 +489,10 @@ def ofFenFinish (sc : Scan) (player : Player) (st : GState) : FenResult :=
     if !(materialOkSide sc.board .white && materialOkSide sc.board .black)
         || pawnOnEdge sc.board then
       .refused "Impossible material"
+    else if !rightsMatchBoard sc.board st then
+      .refused "Castling rights do not match the board"
+    else if !epMatchesBoard sc.board st player then
+      .refused "En passant square does not match the board"
     else .ok (mkGame sc player st wk bk).updatePhase
 
 def ofFen' (fen : List Char) : FenResult :=
@@ -560,7 +564,9 @@ theorem ofFen_ok_inv {s : List Char} {g : Game} (h : Game.ofFen s = .ok g) :
       parseCastling GState.default cast = .ok st0 ∧ epOf player st0 ep = some st ∧
       sc.wking = some wk ∧ sc.bking = some bk ∧
       materialOkSide sc.board .white = true ∧ materialOkSide sc.board .black = true ∧
-      pawnOnEdge sc.board = false ∧ g = (mkGame sc player st wk bk).updatePhase := by
+      pawnOnEdge sc.board = false ∧ rightsMatchBoard sc.board st = true ∧
+      epMatchesBoard sc.board st player = true ∧
+      g = (mkGame sc player st wk bk).updatePhase := by
   rw [ofFen_eq] at h
   unfold ofFen' at h
   cases hs : splitWs s with
@@ -612,9 +618,17 @@ theorem ofFen_ok_inv {s : List Char} {g : Game} (h : Game.ofFen s = .ok g) :
                         · rename_i hm
                           simp only [Bool.or_eq_true, Bool.not_eq_true', Bool.and_eq_false_iff,
                             not_or, Bool.not_eq_false, Bool.not_eq_true] at hm
-                          simp only [FenResult.ok.injEq] at h
-                          refine ⟨pieces, side, cast, ep, rest, sc, player, st0, st, wk, bk, rfl, hr,
-                            hb.1, hb.2, hsd, hc, he, hw, hbk, hm.1.1, hm.1.2, hm.2, h.symm⟩
+                          split at h
+                          · cases h
+                          · rename_i hrm
+                            split at h
+                            · cases h
+                            · rename_i hem
+                              simp only [Bool.not_eq_true', Bool.not_eq_false] at hrm hem
+                              simp only [FenResult.ok.injEq] at h
+                              refine ⟨pieces, side, cast, ep, rest, sc, player, st0, st, wk, bk,
+                                rfl, hr, hb.1, hb.2, hsd, hc, he, hw, hbk, hm.1.1, hm.1.2, hm.2,
+                                hrm, hem, h.symm⟩
 
 /-! ## `updatePhase` does not touch what `abs` reads -/
 
@@ -714,14 +728,15 @@ theorem mkGame_abs (sc : Scan) (player : Player) (st : GState) (wk bk : Pos) :
       { board := sc.board, side := player, wk := st.wk, wq := st.wq, bk := st.bk, bq := st.bq,
         ep := if st.enPassant < 8 then some st.enPassant.toNat else none } := rfl
 
-/-- **C17 / item 3**: an accepted text denotes (in the independent grammar) exactly the
-position that was imported: every square, the side to move, the four castling rights and the
-en-passant file. -/
-theorem ofFen_sound {s : List Char} {g : Game} (h : Game.ofFen s = .ok g) :
-    Spec.fenLoose s = some g.abs := by
-  obtain ⟨pieces, side, cast, ep, rest, sc, player, st0, st, wk, bk, hs, hr, hr0, hc8, hsd, hc,
-    he, hw, hbk, _, _, _, rfl⟩ := ofFen_ok_inv h
-  rw [updatePhase_abs, mkGame_abs]
+/-- the fields that got through the first stages of the reader denote, in the independent
+grammar, exactly the position of the game about to be built (whatever the king squares) -/
+theorem ofFen_stage_sound {s pieces side cast ep : List Char} {rest : List (List Char)}
+    {sc : Scan} {player : Player} {st0 st : GState}
+    (hs : splitWs s = pieces :: side :: cast :: ep :: rest) (hr : Scan.init.run pieces = .ok sc)
+    (hr0 : sc.row = 0) (hc8 : sc.col = 8) (hsd : sideOf side = some player)
+    (hc : parseCastling GState.default cast = .ok st0) (he : epOf player st0 ep = some st)
+    (wk bk : Pos) : Spec.fenLoose s = some (mkGame sc player st wk bk).abs := by
+  rw [mkGame_abs]
   have hf : Spec.fields s = pieces :: side :: cast :: ep :: rest := by
     rw [← splitWs_eq_fields]; exact hs
   have hcne : cast.isEmpty = false := by
@@ -743,6 +758,16 @@ theorem ofFen_sound {s : List Char} {g : Game} (h : Game.ofFen s = .ok g) :
     rw [hcne, hall, e1, e2, e3, e4, c1, c2, c3, c4]
     rfl
   exact fenLoose_of_fields hf (scan_parsePlacement hr hr0 hc8) (sideOf_spec hsd) h4 e0
+
+/-- **C17 / item 3**: an accepted text denotes (in the independent grammar) exactly the
+position that was imported: every square, the side to move, the four castling rights and the
+en-passant file. -/
+theorem ofFen_sound {s : List Char} {g : Game} (h : Game.ofFen s = .ok g) :
+    Spec.fenLoose s = some g.abs := by
+  obtain ⟨pieces, side, cast, ep, rest, sc, player, st0, st, wk, bk, hs, hr, hr0, hc8, hsd, hc,
+    he, _, _, _, _, _, _, _, rfl⟩ := ofFen_ok_inv h
+  rw [updatePhase_abs]
+  exact ofFen_stage_sound hs hr hr0 hc8 hsd hc he wk bk
 
 /-- **C17 / item 2**: text that is malformed beyond doubt (no reading at all in the loose
 grammar) is refused — with a message, never a fault. -/
@@ -1237,7 +1262,7 @@ theorem ofFen_wf_cache {s : List Char} {g : Game} (h : Game.ofFen s = .ok g) :
     g.CacheInv ∧ g.resScore = 0
     ∧ g.resHash = (if g.player = .black then Gen.blackToMove else 0) ^^^ g.top.hash := by
   obtain ⟨pieces, side, cast, ep, rest, sc, player, st0, st, wk, bk, hs, hr, hr0, hc8, hsd, hc,
-    he, hw, hbk, hmw, hmb, _, rfl⟩ := ofFen_ok_inv h
+    he, hw, hbk, hmw, hmb, _, _, _, rfl⟩ := ofFen_ok_inv h
   have inv := cinv_final hr hr0 hc8
   obtain ⟨c1, c2, c3⟩ := mkGame_cache inv player st wk bk
   obtain ⟨iw, hiw, rfl, hbw⟩ := inv.wk wk hw
@@ -1510,6 +1535,124 @@ theorem epOf_complete {e : List Char} {side : Player} {x : Option Nat} (st : GSt
         · cases h
       · cases h
 
+/-! ## castling rights and en-passant file against the board -/
+
+/-- the reader's `boardAt` is the engine's `get` -/
+theorem boardAt_eq_get (g : Game) (r c : Int) : boardAt g.board r c = g.get ⟨r, c⟩ := by
+  unfold boardAt Game.get Pos.idx
+  by_cases h : (r * 8 + c).toNat < 64
+  · simp [Array.getD, h]
+  · simp [Array.getD, h]
+
+/-- on a square of the board the rules' `at` is the reader's `boardAt` -/
+theorem at_eq_boardAt (a : Spec.APos) (r c : Int) (h : 0 ≤ r ∧ r < 8 ∧ 0 ≤ c ∧ c < 8) :
+    a.at (r, c) = boardAt a.board r c := by
+  unfold Spec.APos.at Spec.onBoard boardAt
+  simp [h.1, h.2.1, h.2.2.1, h.2.2.2]
+
+/-- every castling right of the abstract position has its king and rook on their home squares
+(the corresponding clauses of `Spec.sane`) -/
+def RightsOkBoard (a : Spec.APos) : Prop :=
+  (a.wk = true → a.at (0, 4) = some ⟨.king, .white⟩ ∧ a.at (0, 7) = some ⟨.rook, .white⟩)
+  ∧ (a.wq = true → a.at (0, 4) = some ⟨.king, .white⟩ ∧ a.at (0, 0) = some ⟨.rook, .white⟩)
+  ∧ (a.bk = true → a.at (7, 4) = some ⟨.king, .black⟩ ∧ a.at (7, 7) = some ⟨.rook, .black⟩)
+  ∧ (a.bq = true → a.at (7, 4) = some ⟨.king, .black⟩ ∧ a.at (7, 0) = some ⟨.rook, .black⟩)
+
+/-- an en-passant file of the abstract position is backed by the enemy pawn that has just made
+its double step, the two squares behind it being empty (the corresponding clause of `Spec.sane`) -/
+def EpOkBoard (a : Spec.APos) : Prop :=
+  ∀ f : Nat, a.ep = some f →
+    match a.side with
+    | .white => a.at (4, (f : Int)) = some ⟨.pawn, .black⟩ ∧ a.at (5, (f : Int)) = none
+        ∧ a.at (6, (f : Int)) = none
+    | .black => a.at (3, (f : Int)) = some ⟨.pawn, .white⟩ ∧ a.at (2, (f : Int)) = none
+        ∧ a.at (1, (f : Int)) = none
+
+namespace FenChk
+
+theorem bimp (x : Bool) (P : Prop) : (x = false ∨ P) ↔ (x = true → P) := by
+  cases x <;> simp
+
+theorem rightsMatch_iff (g : Game) :
+    rightsMatchBoard g.board g.top = true ↔ RightsOkBoard g.abs := by
+  have e04 := at_eq_boardAt g.abs 0 4 (by omega)
+  have e07 := at_eq_boardAt g.abs 0 7 (by omega)
+  have e00 := at_eq_boardAt g.abs 0 0 (by omega)
+  have e74 := at_eq_boardAt g.abs 7 4 (by omega)
+  have e77 := at_eq_boardAt g.abs 7 7 (by omega)
+  have e70 := at_eq_boardAt g.abs 7 0 (by omega)
+  unfold rightsMatchBoard RightsOkBoard
+  rw [e04, e07, e00, e74, e77, e70]
+  simp only [Bool.and_eq_true, Bool.or_eq_true, Bool.not_eq_true', decide_eq_true_eq, bimp]
+  show _ ↔ (g.top.wk = true → _) ∧ (g.top.wq = true → _) ∧ (g.top.bk = true → _)
+    ∧ (g.top.bq = true → _)
+  constructor
+  · rintro ⟨⟨⟨a, b⟩, c⟩, d⟩; exact ⟨a, b, c, d⟩
+  · rintro ⟨a, b, c, d⟩; exact ⟨⟨⟨a, b⟩, c⟩, d⟩
+
+theorem epMatch_iff (g : Game) :
+    epMatchesBoard g.board g.top g.player = true ↔ EpOkBoard g.abs := by
+  have h0 : 0 ≤ g.top.enPassant := by unfold GState.enPassant; omega
+  unfold epMatchesBoard EpOkBoard
+  show _ ↔ ∀ f : Nat, (if g.top.enPassant < 8 then some g.top.enPassant.toNat else none) = some f →
+    match g.player with
+    | .white => _
+    | .black => _
+  dsimp only
+  by_cases h8 : g.top.enPassant < 8
+  · have hb : ∀ r : Int, 0 ≤ r → r < 8 →
+        g.abs.at (r, ((g.top.enPassant.toNat : Nat) : Int)) = boardAt g.board r g.top.enPassant := by
+      intro r hr0 hr8
+      rw [Int.toNat_of_nonneg h0]
+      exact at_eq_boardAt g.abs r _ ⟨hr0, hr8, h0, h8⟩
+    simp only [h8, if_true, Option.some.injEq, forall_eq']
+    cases g.player
+    · simp only [Bool.and_eq_true, decide_eq_true_eq, Option.isNone_iff_eq_none]
+      rw [hb 4 (by omega) (by omega), hb 5 (by omega) (by omega), hb 6 (by omega) (by omega)]
+      exact and_assoc
+    · simp only [Bool.and_eq_true, decide_eq_true_eq, Option.isNone_iff_eq_none]
+      rw [hb 3 (by omega) (by omega), hb 2 (by omega) (by omega), hb 1 (by omega) (by omega)]
+      exact and_assoc
+  · simp [h8]
+
+/-- one clause of `RightsInv` from what the reader checks -/
+theorem rights_clause (g : Game) (hk : g.KingInv) (pl : Player) (r c : Int)
+    (hr : 0 ≤ r ∧ r < 8)
+    (h : boardAt g.board r 4 = some ⟨.king, pl⟩ ∧ boardAt g.board r c = some ⟨.rook, pl⟩) :
+    g.get ⟨r, c⟩ = some ⟨.rook, pl⟩ ∧ g.kingPos pl = ⟨r, 4⟩
+      ∧ (g.kingExists pl = true → g.get ⟨r, 4⟩ = some ⟨.king, pl⟩) := by
+  rw [boardAt_eq_get, boardAt_eq_get] at h
+  have v4 : (Pos.mk r 4).Valid :=
+    ⟨hr.1, hr.2, by show (0 : Int) ≤ 4; omega, by show (4 : Int) < 8; omega⟩
+  exact ⟨h.2, hk.unique _ pl v4 h.1, fun _ => h.1⟩
+
+theorem rightsInv_of_match (g : Game) (hk : g.KingInv)
+    (h : rightsMatchBoard g.board g.top = true) : g.RightsInv := by
+  unfold rightsMatchBoard at h
+  simp only [Bool.and_eq_true, Bool.or_eq_true, Bool.not_eq_true', decide_eq_true_eq, bimp] at h
+  obtain ⟨⟨⟨hwk, hwq⟩, hbk⟩, hbq⟩ := h
+  exact ⟨fun e => rights_clause g hk .white 0 7 (by omega) (hwk e),
+    fun e => rights_clause g hk .white 0 0 (by omega) (hwq e),
+    fun e => rights_clause g hk .black 7 7 (by omega) (hbk e),
+    fun e => rights_clause g hk .black 7 0 (by omega) (hbq e)⟩
+
+theorem epInv_of_match (g : Game) (h : epMatchesBoard g.board g.top g.player = true) :
+    g.EpInv := by
+  intro h8
+  unfold epMatchesBoard at h
+  dsimp only at h
+  rw [if_pos h8] at h
+  cases hp : g.player <;> rw [hp] at h <;>
+    simp only [Bool.and_eq_true, decide_eq_true_eq, Option.isNone_iff_eq_none,
+      boardAt_eq_get] at h ⊢
+  · exact ⟨h.1.1, h.1.2⟩
+  · exact ⟨h.1.1, h.1.2⟩
+
+end FenChk
+
+
+/-! ## 5. completeness of the reader (continued) -/
+
 theorem ofFen_intro {s pieces side cast ep : List Char} {rest : List (List Char)} {sc : Scan}
     {player : Player} {st0 st : GState} {wk bk : Pos}
     (hs : splitWs s = pieces :: side :: cast :: ep :: rest) (hr : Scan.init.run pieces = .ok sc)
@@ -1517,7 +1660,8 @@ theorem ofFen_intro {s pieces side cast ep : List Char} {rest : List (List Char)
     (hc : parseCastling GState.default cast = .ok st0) (he : epOf player st0 ep = some st)
     (hw : sc.wking = some wk) (hb : sc.bking = some bk)
     (hmw : materialOkSide sc.board .white = true) (hmb : materialOkSide sc.board .black = true)
-    (hpe : pawnOnEdge sc.board = false) :
+    (hpe : pawnOnEdge sc.board = false) (hrm : rightsMatchBoard sc.board st = true)
+    (hem : epMatchesBoard sc.board st player = true) :
     Game.ofFen s = .ok (mkGame sc player st wk bk).updatePhase := by
   rw [ofFen_eq]
   unfold ofFen'
@@ -1529,7 +1673,7 @@ theorem ofFen_intro {s pieces side cast ep : List Char} {rest : List (List Char)
   rw [he]; dsimp only
   unfold ofFenFinish
   rw [hw, hb]; dsimp only
-  simp [hmw, hmb, hpe]
+  simp [hmw, hmb, hpe, hrm, hem]
 
 /-- the reader's material conditions, on a board -/
 def MaterialOKBoard (b : Vector (Option Piece) 64) : Prop :=
@@ -1548,11 +1692,12 @@ theorem king_exists {b : Vector (Option Piece) 64} {pl : Player}
   rw [← hp, ← hxi]; simp
 
 /-- **C17 / item 5 (general form)**: every text with a loose reading whose en-passant rank
-fits the side to move and whose material passes the reader's check is accepted, and the game
-built denotes that reading -/
+fits the side to move, whose material passes the reader's check and whose castling rights and
+en-passant file are backed by the board is accepted, and the game built denotes that reading -/
 theorem ofFen_complete_of_loose {s : List Char} {a : Spec.APos} (h : Spec.fenLoose s = some a)
     (hep : ∀ p sd c e rest, Spec.fields s = p :: sd :: c :: e :: rest → EpRankOk e a.side)
-    (hm : MaterialOKBoard a.board) : ∃ g, Game.ofFen s = .ok g ∧ g.abs = a := by
+    (hm : MaterialOKBoard a.board) (hro : RightsOkBoard a) (heo : EpOkBoard a) :
+    ∃ g, Game.ofFen s = .ok g ∧ g.abs = a := by
   obtain ⟨p, sd, c, e, rest, hf, h1, h2, h3, h4⟩ := fenLoose_inv h
   obtain ⟨sc, hrun, h0, h8, hbd⟩ := scan_complete h1
   have inv := cinv_final hrun h0 h8
@@ -1579,17 +1724,25 @@ theorem ofFen_complete_of_loose {s : List Char} {a : Spec.APos} (h : Spec.fenLoo
     | none =>
       obtain ⟨i, hi, hb⟩ := king_exists hmb
       exact absurd hb (inv.bnone hw i hi)
-  have hok := ofFen_intro (by rw [splitWs_eq_fields]; exact hf) hrun h0 h8 (parseSide_sideOf h2)
-    hst0 hst hwk hbk hmw hmb hpe
+  have hsp : splitWs s = p :: sd :: c :: e :: rest := by rw [splitWs_eq_fields]; exact hf
+  have hden := ofFen_stage_sound hsp hrun h0 h8 (parseSide_sideOf h2) hst0 hst wk bk
+  rw [h] at hden
+  have ha : a = (mkGame sc a.side st wk bk).abs := Option.some.inj hden
+  have hro' : RightsOkBoard (mkGame sc a.side st wk bk).abs := by rw [← ha]; exact hro
+  have heo' : EpOkBoard (mkGame sc a.side st wk bk).abs := by rw [← ha]; exact heo
+  have hok := ofFen_intro hsp hrun h0 h8 (parseSide_sideOf h2) hst0 hst hwk hbk hmw hmb hpe
+    ((FenChk.rightsMatch_iff (mkGame sc a.side st wk bk)).2 hro')
+    ((FenChk.epMatch_iff (mkGame sc a.side st wk bk)).2 heo')
   refine ⟨_, hok, ?_⟩
-  have := ofFen_sound hok
-  rw [h] at this
-  exact (Option.some.inj this).symm
+  rw [updatePhase_abs]
+  exact ha.symm
 
-/-- **C17 / item 5**: every well-formed FEN whose material passes the reader's check is accepted
-and imported as the position it denotes -/
+/-- **C17 / item 5**: every well-formed FEN whose material passes the reader's check and whose
+castling rights and en-passant file are backed by the board is accepted and imported as the
+position it denotes -/
 theorem ofFen_complete {s : List Char} {a : Spec.APos} (h : Spec.fenStrict s = some a)
-    (hm : MaterialOKBoard a.board) : ∃ g, Game.ofFen s = .ok g ∧ g.abs = a := by
+    (hm : MaterialOKBoard a.board) (hro : RightsOkBoard a) (heo : EpOkBoard a) :
+    ∃ g, Game.ofFen s = .ok g ∧ g.abs = a := by
   unfold Spec.fenStrict at h
   dsimp only at h
   split at h
@@ -1612,7 +1765,7 @@ theorem ofFen_complete {s : List Char} {a : Spec.APos} (h : Spec.fenStrict s = s
             · cases hx; exact ⟨rfl, Or.inl rfl⟩
             · cases hx
           obtain ⟨rfl, hepok⟩ := hside a h
-          apply ofFen_complete_of_loose hl _ hm
+          apply ofFen_complete_of_loose hl _ hm hro heo
           intro p' sd' c' e' rest' hf'
           rw [hf] at hf'
           simp only [List.cons.injEq] at hf'
@@ -1620,6 +1773,105 @@ theorem ofFen_complete {s : List Char} {a : Spec.APos} (h : Spec.fenStrict s = s
           exact hepok
         · cases h
     · cases h
+
+/-! ### a sane position passes all the reader's checks -/
+
+namespace FenChk
+
+theorem at_ofIdx (a : Spec.APos) (i : Nat) (hi : i < 64) :
+    a.at (((i / 8 : Nat) : Int), ((i % 8 : Nat) : Int)) = a.board[i] := by
+  rw [at_eq_boardAt a _ _ (by omega)]
+  unfold boardAt
+  have : (((i / 8 : Nat) : Int) * 8 + ((i % 8 : Nat) : Int)).toNat = i := by omega
+  rw [this]
+  simp [Array.getD, hi]
+
+theorem toList_eq_map_range (b : Vector (Option Piece) 64) :
+    b.toList = (List.range 64).map (fun i => b.toArray.getD i none) := by
+  apply List.ext_getElem
+  · simp
+  · intro i h1 h2
+    have hi : i < 64 := by simpa using h1
+    simp [Array.getD, hi]
+
+theorem count_eq (a : Spec.APos) (pl : Player) (t : PieceType) :
+    Spec.count a ⟨t, pl⟩ = countPieces a.board pl t := by
+  unfold Spec.count countPieces Spec.allSqs
+  rw [toList_eq_map_range, List.filter_map, List.filter_map, List.length_map, List.length_map]
+  refine congrArg List.length (List.filter_congr ?_)
+  intro i hi
+  have hi' : i < 64 := by simpa using hi
+  simp only [Function.comp]
+  rw [at_ofIdx a i hi']
+  simp [Array.getD, hi']
+
+theorem materialOkSide_of_spec {a : Spec.APos} {pl : Player}
+    (h : Spec.materialOk a pl = true) : materialOkSide a.board pl = true := by
+  unfold Spec.materialOk at h
+  unfold materialOkSide
+  simp only [count_eq] at h
+  exact h
+
+theorem pawnOnEdge_of_spec {a : Spec.APos} (h : Spec.noEdgePawns a = true) :
+    pawnOnEdge a.board = false := by
+  unfold Spec.noEdgePawns at h
+  unfold pawnOnEdge
+  rw [List.all_eq_true] at h
+  rw [List.any_eq_false]
+  intro c hc
+  have hc8 : c < 8 := by simpa using hc
+  have := h c hc
+  have e0 : a.at (0, (c : Int)) = a.board[c] := by
+    have := at_ofIdx a c (by omega)
+    have h1 : c / 8 = 0 := by omega
+    have h2 : c % 8 = c := by omega
+    rw [h1, h2] at this
+    exact this
+  have e7 : a.at (7, (c : Int)) = a.board[56 + c] := by
+    have := at_ofIdx a (56 + c) (by omega)
+    have h1 : (56 + c) / 8 = 7 := by omega
+    have h2 : (56 + c) % 8 = c := by omega
+    rw [h1, h2] at this
+    exact this
+  rw [e0, e7] at this
+  have g0 : a.board[c]? = some a.board[c] := by simp
+  have g7 : a.board[56 + c]? = some a.board[56 + c] := by
+    have : 56 + c < 64 := by omega
+    simp [this]
+  rw [g0, g7]
+  cases h0 : a.board[c] <;> cases h7 : a.board[56 + c] <;> simp_all
+
+end FenChk
+
+theorem materialOKBoard_of_sane {a : Spec.APos} (h : Spec.sane a = true) :
+    MaterialOKBoard a.board := by
+  simp only [Spec.sane, Bool.and_eq_true] at h
+  obtain ⟨⟨⟨⟨⟨⟨⟨⟨hmw, hmb⟩, hne⟩, -⟩, -⟩, -⟩, -⟩, -⟩, -⟩ := h
+  exact ⟨FenChk.materialOkSide_of_spec hmw, FenChk.materialOkSide_of_spec hmb,
+    FenChk.pawnOnEdge_of_spec hne⟩
+
+theorem rightsOkBoard_of_sane {a : Spec.APos} (h : Spec.sane a = true) : RightsOkBoard a := by
+  simp only [Spec.sane, Bool.and_eq_true, Bool.or_eq_true, Bool.not_eq_true',
+    decide_eq_true_eq, FenChk.bimp] at h
+  obtain ⟨⟨⟨⟨⟨-, hwk⟩, hwq⟩, hbk⟩, hbq⟩, -⟩ := h
+  exact ⟨hwk, hwq, hbk, hbq⟩
+
+theorem epOkBoard_of_sane {a : Spec.APos} (h : Spec.sane a = true) : EpOkBoard a := by
+  simp only [Spec.sane, Bool.and_eq_true] at h
+  obtain ⟨-, hep⟩ := h
+  intro f hf
+  rw [hf] at hep
+  simp only [Bool.and_eq_true, decide_eq_true_eq, Option.isNone_iff_eq_none] at hep
+  obtain ⟨⟨⟨-, h1⟩, h2⟩, h3⟩ := hep
+  cases hs : a.side <;> rw [hs] at h1 h2 h3 <;> simp only [Spec.epFromRow, Spec.forward] at h1 h2 h3
+  · exact ⟨h1, h2, h3⟩
+  · exact ⟨h1, h2, h3⟩
+
+/-- **C17 / item 5, for sane positions**: every well-formed FEN of a position the rules call
+sane is accepted and imported as the position it denotes -/
+theorem ofFen_complete_of_sane {s : List Char} {a : Spec.APos} (h : Spec.fenStrict s = some a)
+    (hs : Spec.sane a = true) : ∃ g, Game.ofFen s = .ok g ∧ g.abs = a :=
+  ofFen_complete h (materialOKBoard_of_sane hs) (rightsOkBoard_of_sane hs) (epOkBoard_of_sane hs)
 
 /-! ## the other components of `WF` -/
 
@@ -1654,11 +1906,11 @@ theorem get_valid (g : Game) {p : Pos} (hp : p.Valid) : g.get p = g.board[p.idx]
   unfold Game.get
   rw [dif_pos (Pos.idx_lt hp)]
 
-/-- the remaining components of `WF` that every imported game has (all but `RightsInv`) -/
+/-- the structural components of `WF` of an imported game (`RightsInv` and `EpInv` follow below) -/
 theorem ofFen_wf_rest {s : List Char} {g : Game} (h : Game.ofFen s = .ok g) :
     g.KingInv ∧ g.state ≠ [] ∧ g.top.enPassant ≤ 8 ∧ g.moveStack = [] := by
   obtain ⟨pieces, side, cast, ep, rest, sc, player, st0, st, wk, bk, hs, hr, hr0, hc8, hsd, hc,
-    he, hw, hbk, hmw, hmb, _, rfl⟩ := ofFen_ok_inv h
+    he, hw, hbk, hmw, hmb, _, _, _, rfl⟩ := ofFen_ok_inv h
   have inv := cinv_final hr hr0 hc8
   obtain ⟨iw, hiw, rfl, hbw⟩ := inv.wk wk hw
   obtain ⟨ib, hib, rfl, hbb⟩ := inv.bk bk hbk
@@ -1691,58 +1943,109 @@ theorem ofFen_wf_rest {s : List Char} {g : Game} (h : Game.ofFen s = .ok g) :
     · unfold Game.setPosition; dsimp only; split <;> split <;> rfl
     · rfl
 
-/-! ### a finding: the reader does not check castling rights against the board -/
+/-! ### the reader checks castling rights and the en-passant file against the board -/
+
+/-- **an imported game satisfies `RightsInv`**: every castling right it records has the rook on
+its home square and the king — cached and on the board — on its own -/
+theorem ofFen_rightsInv {s : List Char} {g : Game} (h : Game.ofFen s = .ok g) : g.RightsInv := by
+  have hk := (ofFen_wf_rest h).1
+  obtain ⟨pieces, side, cast, ep, rest, sc, player, st0, st, wk, bk, -, -, -, -, -, -, -, -, -,
+    -, -, -, hrm, -, rfl⟩ := ofFen_ok_inv h
+  obtain ⟨f1, -, f3, -, -⟩ := updatePhase_fields (mkGame sc player st wk bk)
+  apply FenChk.rightsInv_of_match _ hk
+  unfold Game.top
+  rw [f1, f3]
+  exact hrm
+
+/-- **an imported game satisfies `EpInv`**: a recorded en-passant file is backed by the enemy
+pawn that has just made its double step -/
+theorem ofFen_epInv {s : List Char} {g : Game} (h : Game.ofFen s = .ok g) : g.EpInv := by
+  obtain ⟨pieces, side, cast, ep, rest, sc, player, st0, st, wk, bk, -, -, -, -, -, -, -, -, -,
+    -, -, -, -, hem, rfl⟩ := ofFen_ok_inv h
+  obtain ⟨f1, f2, f3, -, -⟩ := updatePhase_fields (mkGame sc player st wk bk)
+  apply FenChk.epInv_of_match
+  unfold Game.top
+  rw [f1, f2, f3]
+  exact hem
+
+/-- **every imported game satisfies the representation invariant** -/
+theorem ofFen_wf {s : List Char} {g : Game} (h : Game.ofFen s = .ok g) : g.WF := by
+  obtain ⟨hc, hs, hh⟩ := ofFen_wf_cache h
+  obtain ⟨hk, hn, hep, _⟩ := ofFen_wf_rest h
+  exact { cache := hc, kings := hk, rights := ofFen_rightsInv h, epInv := ofFen_epInv h,
+          resHash := hh, resScore := hs, nonempty := hn,
+          ep := ⟨by unfold GState.enPassant; omega, hep⟩ }
+
+/-- both kings of an imported game stand on their cached squares -/
+theorem ofFen_kings {s : List Char} {g : Game} (h : Game.ofFen s = .ok g) (pl : Player) :
+    g.get (g.kingPos pl) = some ⟨.king, pl⟩ := by
+  obtain ⟨pieces, side, cast, ep, rest, sc, player, st0, st, wk, bk, hs, hr, hr0, hc8, -, -,
+    -, hw, hbk, -, -, -, -, -, rfl⟩ := ofFen_ok_inv h
+  have inv := cinv_final hr hr0 hc8
+  obtain ⟨iw, hiw, rfl, hbw⟩ := inv.wk wk hw
+  obtain ⟨ib, hib, rfl, hbb⟩ := inv.bk bk hbk
+  obtain ⟨f1, -, -, f4, f5⟩ := updatePhase_fields (mkGame sc player st (Pos.ofIdx iw) (Pos.ofIdx ib))
+  cases pl
+  · show Game.get _ (Game.wking _) = _
+    rw [f4]
+    show Game.get _ (Pos.ofIdx iw) = _
+    rw [get_valid _ (idx_ofIdx hiw).2]
+    simp only [f1, (idx_ofIdx hiw).1]
+    exact hbw
+  · show Game.get _ (Game.bking _) = _
+    rw [f5]
+    show Game.get _ (Pos.ofIdx ib) = _
+    rw [get_valid _ (idx_ofIdx hib).2]
+    simp only [f1, (idx_ofIdx hib).1]
+    exact hbb
+
+/-- what the reader has checked, in the words of the abstract position: the castling rights and
+the en-passant file of an imported game are backed by its board -/
+theorem ofFen_rightsOkBoard {s : List Char} {g : Game} (h : Game.ofFen s = .ok g) :
+    RightsOkBoard g.abs ∧ EpOkBoard g.abs := by
+  obtain ⟨pieces, side, cast, ep, rest, sc, player, st0, st, wk, bk, -, -, -, -, -, -, -, -, -,
+    -, -, -, hrm, hem, rfl⟩ := ofFen_ok_inv h
+  rw [updatePhase_abs]
+  exact ⟨(FenChk.rightsMatch_iff (mkGame sc player st wk bk)).1 hrm,
+    (FenChk.epMatch_iff (mkGame sc player st wk bk)).1 hem⟩
+
+/-! ### two examples: a castling right without its rook, an en-passant square without its pawn -/
 
 def rightsWitness : List Char := "4k3/8/8/8/8/8/8/4K3 w K -".toList
 
-def rightsWitnessCheck : Option Spec.APos → Bool
-  | some a => a.wk && a.board[7].isNone && materialOkSide a.board .white
-      && materialOkSide a.board .black && !pawnOnEdge a.board && a.side = .white
-  | none => false
+def FenChk.refusedWith : FenResult → String → Bool
+  | .refused w, m => w == m
+  | _, _ => false
 
-theorem rightsWitness_check : rightsWitnessCheck (Spec.fenLoose rightsWitness) = true := by
-  decide +kernel
+/-- The text `4k3/8/8/8/8/8/8/4K3 w K -` gives White the king-side castling right although
+there is no rook on h1: the reader refuses it. -/
+theorem ofFen_rights_checked_example :
+    Game.ofFen rightsWitness = .refused "Castling rights do not match the board" := by
+  have : FenChk.refusedWith (Game.ofFen rightsWitness) "Castling rights do not match the board"
+      = true := by decide +kernel
+  cases h : Game.ofFen rightsWitness with
+  | ok g => rw [h] at this; cases this
+  | fault w => rw [h] at this; cases this
+  | refused w =>
+    rw [h] at this
+    simp only [FenChk.refusedWith, beq_iff_eq] at this
+    rw [this]
 
-theorem rightsWitness_fields : ∃ p sd c, Spec.fields rightsWitness = [p, sd, c, ['-']] := by
-  refine ⟨"4k3/8/8/8/8/8/8/4K3".toList, ['w'], ['K'], ?_⟩
-  decide +kernel
+def epWitness : List Char := "4k3/8/8/8/8/8/8/4K3 w - e6".toList
 
-/-- The reader accepts `4k3/8/8/8/8/8/8/4K3 w K -`: White keeps the king-side castling right
-although there is no rook on h1, so an imported game need not satisfy `RightsInv` (hence not
-`WF`). -/
-theorem ofFen_rights_not_checked :
-    ∃ g, Game.ofFen rightsWitness = .ok g ∧ g.top.wk = true ∧ g.get ⟨0, 7⟩ = none
-      ∧ ¬ g.RightsInv := by
-  have hc := rightsWitness_check
-  cases hl : Spec.fenLoose rightsWitness with
-  | none => rw [hl] at hc; cases hc
-  | some a =>
-    rw [hl] at hc
-    simp only [rightsWitnessCheck, Bool.and_eq_true, Bool.not_eq_true', decide_eq_true_eq,
-      Option.isNone_iff_eq_none] at hc
-    obtain ⟨⟨⟨⟨⟨h1, h2⟩, h3⟩, h4⟩, h5⟩, h6⟩ := hc
-    obtain ⟨p, sd, c, hf⟩ := rightsWitness_fields
-    obtain ⟨g, hok, habs⟩ := ofFen_complete_of_loose hl (by
-      intro p' sd' c' e' rest' hf'
-      rw [hf] at hf'
-      simp only [List.cons.injEq] at hf'
-      exact Or.inl hf'.2.2.2.1.symm) ⟨h3, h4, h5⟩
-    have hwk : g.top.wk = true := by
-      have : g.abs.wk = a.wk := by rw [habs]
-      rw [← h1, ← this]; rfl
-    have hget : g.get ⟨0, 7⟩ = none := by
-      have hb : g.abs.board = a.board := by rw [habs]
-      have hb' : g.board = a.board := hb
-      have hv : (Pos.mk 0 7).Valid := by decide
-      rw [get_valid g hv]
-      have : (Pos.mk 0 7).idx = 7 := by decide
-      simp only [this, hb']
-      exact h2
-    refine ⟨g, hok, hwk, hget, ?_⟩
-    intro hr
-    have := (hr.wk hwk).1
-    rw [hget] at this
-    cases this
+/-- The text `4k3/8/8/8/8/8/8/4K3 w - e6` names an en-passant square although no black pawn
+stands on e5: the reader refuses it. -/
+theorem ofFen_ep_checked_example :
+    Game.ofFen epWitness = .refused "En passant square does not match the board" := by
+  have : FenChk.refusedWith (Game.ofFen epWitness) "En passant square does not match the board"
+      = true := by decide +kernel
+  cases h : Game.ofFen epWitness with
+  | ok g => rw [h] at this; cases this
+  | fault w => rw [h] at this; cases this
+  | refused w =>
+    rw [h] at this
+    simp only [FenChk.refusedWith, beq_iff_eq] at this
+    rw [this]
 
 end Chess
 
@@ -1754,5 +2057,12 @@ end Chess
 #print axioms Chess.ofFen_wf_cache
 #print axioms Chess.ofFen_complete_of_loose
 #print axioms Chess.ofFen_complete
+#print axioms Chess.ofFen_complete_of_sane
 #print axioms Chess.ofFen_wf_rest
-#print axioms Chess.ofFen_rights_not_checked
+#print axioms Chess.ofFen_rightsInv
+#print axioms Chess.ofFen_epInv
+#print axioms Chess.ofFen_wf
+#print axioms Chess.ofFen_kings
+#print axioms Chess.ofFen_rightsOkBoard
+#print axioms Chess.ofFen_rights_checked_example
+#print axioms Chess.ofFen_ep_checked_example
